@@ -81,13 +81,6 @@ func kindOf(class string) string {
 	return class
 }
 
-func portRepr(ps *portSpec) string {
-	if ps == nil {
-		return "-"
-	}
-	return ps.Repr
-}
-
 func runRoutes(e *core.Env) {
 	rec := e.Rec
 	rec.Rule(ruleText)
@@ -133,8 +126,7 @@ func runRoutes(e *core.Env) {
 		for _, f := range sortedFeatures(w) {
 			rec.Class("config: %s", f)
 		}
-		for k, rc := range w.Cfg.Routes {
-			rec.Class("config: port representations from=%s to=%s", portRepr(w.aux[k].From), portRepr(w.aux[k].To))
+		for _, rc := range w.Cfg.Routes {
 			if len(rc.FromPrefixSets) > 1 || len(rc.ToPrefixSets) > 1 || len(rc.ToMatchedDomainExpectedPrefixSets) > 1 {
 				rec.Class("config: several prefix sets united in one criterion")
 			}
